@@ -191,8 +191,11 @@ def run(ctx):
     from ovsa.absint import to_lin
     inl = {f.name for f in prog.fns_in("src/emu/stream.c")} | {"ovni_ev_size", "ovni_payload_size",
                                                               "get_jumbo_payload_size", "ovni_ev_get_clock"}
+    # the property is about events the runtime can write: a jumbo's size field never exceeds the event buffer
+    # (what the reader does with larger, corrupt sizes is C12 / C19's business)
     ex5 = absint.Explorer(prog, effects=eff, inline=lambda n, d: n in inl and d.name != "stream_step",
-                          loop_bound=2, max_depth=5, symbolic_roots=("BUF",))
+                          loop_bound=2, max_depth=5, symbolic_roots=("BUF",),
+                          symbolic_ranges={"unsigned int": (0, cap), "uint32_t": (0, cap)})
     S = ex5.sym("size", 8, 2 ** 31 - 1)
     off = ex5.sym("off", 8, 2 ** 31 - 1)
     store = {("ST", F("stream", "active")): INT(1), ("ST", F("stream", "size")): S,
@@ -364,7 +367,7 @@ def _reader_requires(prog, eff, f, node, kind):
         if d and d[0]["ret"].rstrip().endswith("*"):
             return [NULL, PTR("ret:" + cal)]
         return None
-    ex = absint.Explorer(prog, effects=eff, inline=lambda n, d: False, on_unknown_call=unk, loop_bound=2,
+    ex = absint.Explorer(prog, effects=eff, auto_inline=False, on_unknown_call=unk, loop_bound=2,
                          max_paths=20000)
     outs = ex.run(f, [TOP] * len(f.params), {})
     hit = [o for o in outs if any(ev[0] == "call" and ev[3] == f.key and ev[4] == node for ev in o.events)]
